@@ -249,6 +249,12 @@ pub fn run(c: &Case, rep: &mut Report) {
             let toks: Vec<&str> = v.split(' ').filter(|t| !t.is_empty()).collect();
             let (ni, ns, ne) = (toks.iter().filter(|t| **t == "I").count(), toks.iter().filter(|t| **t == "S").count(), toks.iter().filter(|t| **t == "E").count());
             rep.count("traversals-with-nested-traversals", 1);
+            rep.count("instructions-reported-by-traversals-started-at-nested-sequences", end.num(&format!("imm_nested.inner.{}", idx)).unwrap_or(0));
+            if let Some(k) = end.num(&format!("imm_nested.mismatch.{}", idx)) {
+                if k > 0 {
+                    rep.violation(c, "C16/immutable/traversal-started-at-a-nested-sequence-covers-something-else", &format!("{}: {} traversals started at a nested sequence reported a different number of instructions than that sequence's sub-tree has", site, k), &[]);
+                }
+            }
             if ni != e.groups.len() || ns != e.seqs || ne != e.seqs {
                 rep.violation(c, "C16/immutable/outer-traversal-disturbed-by-a-traversal-started-in-a-callback", &format!("{}: the outer traversal reported {} instructions, {} sequence starts, {} ends; the function has {} instructions in {} sequences", site, ni, ns, ne, e.groups.len(), e.seqs), &[]);
             }
